@@ -26,6 +26,8 @@ Inductive case :=
 (* expand_word (single-field mode, as for assignment values) of one word:
    inl value, or inr error kind (as for CWords; 100 = panic) *)
 | CSingle (e : env) (w : word) (out : str + N)
+(* expand_text (here-document bodies) of one text: inl value or inr error kind *)
+| CText (e : env) (t : text) (out : str + N)
 | CWords (api : bool) (e : env) (cmds : list (list word))
          (out : list (list str)) (stop : option N).
 
@@ -109,6 +111,29 @@ Definition run_case (c : case) : verdict :=
           match oracle with
           | 0%N =>
               match expand_word_single w e, out with
+              | Err EDomain, _ => 99%N
+              | Ok v _, inl v' => if str_eqb v v' then 0%N else 1%N
+              | Err k, inr c => if N.eqb c (kind_code k) then 0%N else 1%N
+              | _, _ => 1%N
+              end
+          | k => k
+          end
+      end
+  | CText e t out =>
+      match out with
+      | inr 100%N => 3%N
+      | _ =>
+          let oracle : N :=
+            match spec_text_single t e, out with
+            | SUnspec, _ => 0
+            | SOk v _, inl v' => if str_eqb v v' then 0 else 14
+            | SOk _ _, inr _ => 5
+            | SErr k, inr c => if N.eqb c (kind_code k) then 0 else 7
+            | SErr _, inl _ => 6
+            end%N in
+          match oracle with
+          | 0%N =>
+              match expand_text_single t e, out with
               | Err EDomain, _ => 99%N
               | Ok v _, inl v' => if str_eqb v v' then 0%N else 1%N
               | Err k, inr c => if N.eqb c (kind_code k) then 0%N else 1%N
